@@ -32,7 +32,7 @@ Definition d_c14_gslb (i : val) : option (list (str * Z)) :=
   end.
 
 (* op 3: reload-history independence of the balancer.
-   [3 K [sticky strategy] A B probes] ; A, B = [[sub weight [[bname addr port bweight] ...]] ...] ; probes = [[key murmur64] ...] *)
+   [3 K [sticky strategy] [A M ...] B probes] ; history A, M, ... and B = [[sub weight [[bname addr port bweight] ...]] ...] ; probes = [[key murmur64] ...] *)
 Definition d_bk (v : val) : option bk :=
   match v with
   | VL [VB n; VB a; VZ p; VZ w] => Some {| b_name := n; b_addr := a; b_port := p; b_weight := w |}
@@ -43,13 +43,13 @@ Definition d_sub (v : val) : option (str * Z * list bk) :=
   | VL [VB n; VZ w; bks] => do bks' <- d_list d_bk bks; Some (n, w, bks')
   | _ => None
   end.
-Record reload_case := { rc_sticky : bool; rc_a : list (str * Z * list bk); rc_b : list (str * Z * list bk); rc_hashes : list Z }.
+Record reload_case := { rc_sticky : bool; rc_hist : list (list (str * Z * list bk)); rc_b : list (str * Z * list bk); rc_hashes : list Z }.
 Definition d_c14_reload (i : val) : option reload_case :=
   match i with
   | VL [VZ 3; VZ _; VL [VZ st; VZ _]; a; b; ps] =>
-      do a' <- d_list d_sub a; do b' <- d_list d_sub b;
+      do a' <- d_list (d_list d_sub) a; do b' <- d_list d_sub b;
       do ps' <- d_list (d_pair as_B as_Z) ps;
-      Some {| rc_sticky := negb (st =? 0); rc_a := a'; rc_b := b'; rc_hashes := map snd ps' |}
+      Some {| rc_sticky := negb (st =? 0); rc_hist := a'; rc_b := b'; rc_hashes := map snd ps' |}
   | _ => None
   end.
 Definition weights_of (l : list (str * Z * list bk)) : list (str * Z) := map fst l.
@@ -77,11 +77,15 @@ Definition v_reload (c : reload_case) : val :=
   match gslb_fresh (weights_of (rc_b c)) with
   | None => VErr 2
   | Some f =>
-      if pos_total (weights_of (rc_a c)) =? 0 then VErr 1
-      else match gslb_after_reload (weights_of (rc_a c)) (weights_of (rc_b c)) with
-           | Some h => VL [v_half (rc_sticky c) f (rc_b c) (rc_hashes c); v_half (rc_sticky c) h (rc_b c) (rc_hashes c)]
-           | None => VErr 2
-           end
+      match rc_hist c with
+      | [] => VErr 1
+      | a :: _ =>
+          if pos_total (weights_of a) =? 0 then VErr 1
+          else match gslb_after_history (map weights_of (rc_hist c)) (weights_of (rc_b c)) with
+               | Some h => VL [v_half (rc_sticky c) f (rc_b c) (rc_hashes c); v_half (rc_sticky c) h (rc_b c) (rc_hashes c)]
+               | None => VErr 2
+               end
+      end
   end.
 
 (* model output: the single summary obtained with the map orders = list orders of the input *)
@@ -176,4 +180,21 @@ Definition kf_C14 (i : val) : Z :=
   match d_c14 i with
   | Some (fs, _) => order_class fs
   | None => 0
+  end.
+
+(* well-formed inputs: a decodable input of one of the three operations; for op 3 the sub-cluster names of every
+   configuration are distinct (they are keys of a Go map) *)
+Definition wf_C14 (i : val) : bool :=
+  match d_c14 i with
+  | Some _ => true
+  | None =>
+      match d_c14_gslb i with
+      | Some _ => true
+      | None =>
+          match d_c14_reload i with
+          | Some c => forallb (fun a => nodup_str (map fst (weights_of a))) (rc_hist c)
+                      && nodup_str (map fst (weights_of (rc_b c)))
+          | None => false
+          end
+      end
   end.
